@@ -303,7 +303,7 @@ func runScenario(sc *scenario, descr string) []string {
 	go func() { wg.Wait(); close(done) }()
 	select {
 	case <-done:
-	case <-time.After(10 * time.Second):
+	case <-time.After(60 * time.Second):
 		rc.log("w0 hang")
 	}
 	database.VerifSetSink(nil)
@@ -418,7 +418,7 @@ func genScenario(rng *rand.Rand, r *hxlib.Run) *scenario {
 }
 
 func genConcurrent(r *hxlib.Run, emit func(hxlib.Case)) {
-	n := r.Budget(700, 12000)
+	n := r.Budget(1500, 25000)
 	for x := 0; x < n; x++ {
 		sc := genScenario(r.Rng, r)
 		var cd []string
@@ -507,7 +507,7 @@ func monitorConc(c hxlib.Case, outs []string) (vs []hxlib.Violation) {
 			case f[2] == "panic":
 				add("C14:conc:panic", "a goroutine of the scenario panicked: "+l)
 			case f[2] == "hang":
-				add("C14:conc:hang", "the scenario did not finish within 10 s")
+				add("C14:conc:hang", "the scenario did not finish within 60 s")
 			case f[2] == "begin" && f[1][0] == 'w':
 				begin[num(f[1], 'w')] = i
 			case f[2] == "end" && f[1][0] == 'w':
